@@ -5,6 +5,7 @@ mod codecreplay;
 mod concmodel;
 mod concreplay;
 mod vecconc;
+mod vecrecord;
 mod vecfree;
 mod crashreplay;
 mod eagerreplay;
@@ -44,6 +45,7 @@ fn main() {
         "concmodel" => concmodel::main(&args[2..]),
         "rawrecord" => rawrecord::main(&args[2..]),
         "vecconc" => vecconc::main(&args[2..]),
+        "vecrecord" => vecrecord::main(&args[2..]),
         "vecfree" => vecfree::main(&args[2..]),
         "openprobe" => openreplay::probe_main(&args[2..]),
         other => {
